@@ -385,6 +385,15 @@ class _ExprCanon(ast.NodeTransformer):
             return ast.copy_location(_tcall("inverse", node.args[0]), node)
         if fn == "torch.flatten" and len(node.args) == 1 and not node.keywords:
             return ast.copy_location(_mcall(node.args[0], "reshape", ast.UnaryOp(op=ast.USub(), operand=ast.Constant(1))), node)
+        if fn in ("torch.autograd.grad", "autograd.grad") and node.args:
+            # a one-element tuple of outputs / grad_outputs is the element itself
+            if isinstance(node.args[0], (ast.Tuple, ast.List)) and len(node.args[0].elts) == 1 and not isinstance(node.args[0].elts[0], ast.Starred):
+                node.args[0] = node.args[0].elts[0]
+            for k in node.keywords:
+                if k.arg in ("grad_outputs", "outputs") and isinstance(k.value, (ast.Tuple, ast.List)) and len(k.value.elts) == 1 \
+                        and not isinstance(k.value.elts[0], ast.Starred):
+                    k.value = k.value.elts[0]
+            return node
         if fn == "torch.cat" and len(node.args) == 1 and len(node.keywords) == 1 and node.keywords[0].arg == "dim" \
                 and isinstance(node.keywords[0].value, ast.Constant) and node.keywords[0].value.value == 0:
             node.keywords = []
